@@ -29,6 +29,8 @@ type bfsCfg struct {
 	// one of them is recorded (and reported as KNOWN-FINDING) but still expanded, so that a
 	// recorded defect does not hide the state space behind it.
 	OpenTags map[string]bool
+	// CollectHists keeps the (shortest) history of every new state in bfsOut.Hists.
+	CollectHists bool
 }
 
 type violation struct {
@@ -50,6 +52,7 @@ type bfsOut struct {
 	FrontierAtBound                int
 	Info                           map[string]int
 	PerLevel                       []int
+	Hists                          [][]string
 }
 
 type workerProc struct {
@@ -240,6 +243,9 @@ func runBFS(bin, scratch string, c bfsCfg) (*bfsOut, error) {
 			newStates++
 			out.States++
 			out.Outcomes[r.Outcome]++
+			if c.CollectHists {
+				out.Hists = append(out.Hists, h)
+			}
 			if r.Quiescent {
 				out.Quiescent++
 			}
@@ -302,4 +308,81 @@ func sortedKeys(m map[string]int) []string {
 	}
 	sort.Strings(k)
 	return k
+}
+
+// runTasks executes independent tasks (histories) on a pool of worker processes and returns
+// the results in task order.
+func runTasks(bin, scratch, model string, opts interface{}, tasks [][]string, workers, recycle int, deadline time.Time) ([]*proto.Result, bool, error) {
+	if workers <= 0 {
+		workers = 16
+	}
+	if recycle <= 0 {
+		recycle = 300
+	}
+	results := make([]*proto.Result, len(tasks))
+	type job struct {
+		idx  int
+		hist []string
+	}
+	jobs := make(chan job, len(tasks))
+	for i, h := range tasks {
+		jobs <- job{i, h}
+	}
+	close(jobs)
+	var wg sync.WaitGroup
+	var mu sync.Mutex
+	var firstErr error
+	timedOut := false
+	if workers > len(tasks) {
+		workers = len(tasks)
+	}
+	for wi := 0; wi < workers; wi++ {
+		wg.Add(1)
+		go func(wi int) {
+			defer wg.Done()
+			var wp *workerProc
+			defer func() {
+				if wp != nil {
+					wp.kill()
+				}
+			}()
+			for j := range jobs {
+				mu.Lock()
+				stop := firstErr != nil || timedOut
+				mu.Unlock()
+				if stop {
+					continue
+				}
+				if !deadline.IsZero() && time.Now().After(deadline) {
+					mu.Lock()
+					timedOut = true
+					mu.Unlock()
+					continue
+				}
+				if wp == nil || wp.n >= recycle {
+					if wp != nil {
+						wp.kill()
+					}
+					var err error
+					wp, err = startWorker(bin, model, opts, scratch, 100+wi)
+					if err != nil {
+						mu.Lock()
+						firstErr = err
+						mu.Unlock()
+						return
+					}
+				}
+				r, err := wp.run(proto.Task{ID: j.idx, Hist: j.hist})
+				if err != nil {
+					mu.Lock()
+					firstErr = fmt.Errorf("task %v: %v", j.hist, err)
+					mu.Unlock()
+					return
+				}
+				results[j.idx] = r
+			}
+		}(wi)
+	}
+	wg.Wait()
+	return results, timedOut, firstErr
 }
